@@ -104,6 +104,10 @@ def _val(draw, var, cls, depth, model, names, miss):
     c = draw(st.integers(0, 9)) if depth > 0 else 0
     if c <= 2:
         pos, kw = draw(_shape(model[f"{cls}.val"], arg, miss))
+        if not miss and (pos or kw) and draw(st.integers(0, 9)) == 0:
+            star = draw(st.sampled_from(["pos", "kw", "both"]))
+            if (star != "kw" and pos) or (star != "pos" and kw):
+                return ["site", ["var", var], cls, "val", pos, kw, star]
         return ["site", ["var", var], cls, "val", pos, kw]
     if c <= 5 and cls in CHILD:
         coll, child = CHILD[cls]
@@ -338,7 +342,7 @@ def render(ir, ns, mode, consts):
         return ir[1]
     if k in ("site", "fn"):
         if k == "site":
-            _, recv, cls, meth, pos, kw = ir
+            _, recv, cls, meth, pos, kw = ir[:6]
             if meth == "val":
                 meth = ns["_alias"]
             func = getattr(ns[cls], meth)
@@ -351,6 +355,13 @@ def render(ir, ns, mode, consts):
             head = ir[3] if len(ir) > 3 else "fn"
             func = ns[head]
             skip = 0
+        star = ir[6] if k == "site" and len(ir) > 6 else None
+        if star:
+            # the arguments handed over as *seq / **mapping: which parameters they bind is only known at run time, the call is
+            # left exactly as written (nothing filled in, nothing moved)
+            args = ([f"*({', '.join(R(a) for a in pos)},)"] if pos and star in ("pos", "both") else [R(a) for a in pos])
+            args += ([f"**{{{', '.join(repr(n) + ': ' + R(a) for n, a in kw)}}}"] if kw and star in ("kw", "both") else [f"{n}={R(a)}" for n, a in kw])
+            return f"{head}({', '.join(args)})"
         if mode == "written":
             args = [R(a) for a in pos] + [f"{n}={R(a)}" for n, a in kw]
             return f"{head}({', '.join(args)})"
